@@ -35,15 +35,20 @@ def field_pool():
     ]
 
 
+# the ways a default factory can be given: anything callable() accepts is evaluated anew for each configuration
+FACTORIES = ["callable", "lambda", "partial", "callobj", "method", "classmethod"]
+DKINDS = ["constant", "absent"] + FACTORIES
+
+
 def generate(rng, tier):
     cases = []
     names = [p[0] for p in field_pool()]
     for name in names:
-        for dkind in ("constant", "callable", "absent"):
+        for dkind in DKINDS:
             for depth in (0, 1, 2):
                 cases.append({"field": name, "dkind": dkind, "depth": depth, "assign": depth % 2 == 0, "kind": "matrix"})
     for _ in range(60 if tier == "quick" else 1200):
-        cases.append({"field": rng.choice(names), "dkind": rng.choice(["constant", "callable", "absent"]), "depth": rng.randint(0, 3),
+        cases.append({"field": rng.choice(names), "dkind": rng.choice(DKINDS), "depth": rng.randint(0, 3),
                       "assign": rng.random() < 0.5, "kind": "random"})
     return cases
 
@@ -59,12 +64,12 @@ def _mk(c, counter, calls):
     kw = dict(kw)
     if c["dkind"] == "constant":
         kw["default"] = seq[0]
-    elif c["dkind"] == "callable":
+    elif c["dkind"] in FACTORIES:
         def dflt():
             v = seq[next(counter) % len(seq)]
             calls.append(v)
             return v
-        kw["default"] = dflt
+        kw["default"] = _factory(c["dkind"], dflt)
     if name == "ListFieldTyped":
         f = cc.ListField(cc.IntField(), **kw)
     elif name == "DictFieldTyped":
@@ -77,6 +82,32 @@ def _mk(c, counter, calls):
         cur = getattr(cur, "lvl%d" % i)       # Schema.__getattr__ creates the nested schema (the documented way)
     cur.f = f
     return s, seq
+
+
+def _factory(kind, fn):
+    import functools
+    if kind == "callable":
+        return fn
+    if kind == "lambda":
+        return lambda: fn()
+    if kind == "partial":
+        return functools.partial((lambda tag: fn()), "tag")
+
+    class Maker:
+        def __call__(self):
+            return fn()
+
+        def make(self):
+            return fn()
+
+        @classmethod
+        def cmake(cls):
+            return fn()
+    if kind == "callobj":
+        return Maker()
+    if kind == "method":
+        return Maker().make
+    return Maker.cmake
 
 
 def _plain(v):
@@ -121,7 +152,7 @@ def impl(c):
         out["a_defined"], out["b_defined"] = is_value_defined(a, path), is_value_defined(b, path)
         if c["dkind"] == "constant":
             out["a_ok"], out["b_ok"] = _verifies(va, seq[0]), _verifies(vb, seq[0])
-        elif c["dkind"] == "callable":
+        elif c["dkind"] in FACTORIES:
             # evaluated anew for each configuration: each one holds a value returned DURING ITS OWN construction
             out["a_ok"] = n_a > 0 and any(_verifies(va, x) for x in calls[:n_a])
             out["b_ok"] = n_b > n_a and any(_verifies(vb, x) for x in calls[n_a:n_b])
@@ -138,11 +169,22 @@ def impl(c):
         vr = a[path]
         if c["dkind"] == "constant":
             out["reset_ok"] = _verifies(vr, seq[0])
-        elif c["dkind"] == "callable":
+        elif c["dkind"] in FACTORIES:
             out["reset_ok"] = len(calls) > n_r and any(_verifies(vr, x) for x in calls[n_r:])
         else:
             out["reset_ok"] = vr is None
         out["b_untouched"] = b[path] is vb
+        if c["dkind"] != "absent":
+            # loading / assigning a value EQUAL to the one the field already holds (its default) still makes it user-defined
+            tree = b.to_tree()
+            b.load_tree(tree)
+            out["loadsame_defined"] = is_value_defined(b, path)
+            reset_value(b, path)
+            out["loadsame_reset"] = not is_value_defined(b, path)
+            cur = b[path]
+            if not isinstance(cur, (list, dict)) or c["field"] == "AnyField":
+                b[path] = cur
+                out["assignsame_defined"] = is_value_defined(b, path)
     except Exception as e:  # noqa
         out["exc"] = "%s: %s" % (type(e).__name__, e)
     finally:
@@ -167,6 +209,12 @@ def oracle(c, obs):
         bad.append("%s: an accepted assignment is not reported as user-defined / does not read back" % what)
     if obs["reset_defined"] or not obs["reset_ok"]:
         bad.append("%s: reset does not restore the default value and the not-user-defined status" % what)
+    if obs.get("loadsame_defined") is False:
+        bad.append("%s: loading a value equal to the default does not make the field user-defined" % what)
+    if obs.get("loadsame_reset") is False:
+        bad.append("%s: reset after a load does not restore the not-user-defined status" % what)
+    if obs.get("assignsame_defined") is False:
+        bad.append("%s: assigning a value equal to the default does not make the field user-defined" % what)
     if not obs["b_untouched"]:
         bad.append("%s: reset of one configuration touched another" % what)
     return bad
